@@ -198,10 +198,10 @@ def d4convAnswer (args : List String) : String :=
         if n > 10 then "ok conv=0"
         else if D4.conventions2B parsed total then
           -- `conventions2B_sound`: well formed, unique literal leaves, every node but the root has a parent
-          (if wfB nodes n && litUniqueB nodes &&
+          (if wfB nodes n && litUniqueB nodes && (n == 0 || enumOkB nodes) &&
               ((List.range (nodes.length - 1)).all fun j =>
                 (List.range nodes.length).any fun i => j < i && (children (nodes.getD i .tru)).contains j)
-           then "ok conv=1" else "CONTRADICTION: conventions hold, loaded array not WF / LitUnique / HasParents")
+           then "ok conv=1" else "CONTRADICTION: conventions hold, loaded array not WF / LitUnique / EnumOK / HasParents")
         else "ok conv=0"
   | _ => "bad-args"
 
